@@ -385,7 +385,8 @@ def check_property(pid, tier, jobs):
             h = [x for x in harnesses if x["name"] == r["name"]][0]
             cmd = kani_cmd(crate, ["--harness", hpath(r["name"]), "--exact", "-Z", "concrete-playback",
                                    "--concrete-playback=print"] + h.get("kani_args", []))
-            st, out, wall = run_proc(cmd, crate_dir(crate), r["timeout_s"] * 2, mem_gb=r["mem_cap_gb"])
+            # building the counterexample trace needs more memory than the verdict
+            st, out, wall = run_proc(cmd, crate_dir(crate), r["timeout_s"] * 2, mem_gb=max(32, 2 * r["mem_cap_gb"]))
             with open(os.path.join(logdir, r["name"] + ".playback.log"), "w") as f:
                 f.write(out)
             pbs = [p for p in parse_playback(out) if p["kind"] != "cover"]
